@@ -226,7 +226,14 @@ fn gen_sys(id: u64, r: &mut Rng) -> (String, Vec<String>) {
         let sched = if r.chance(1, 2) { pat.to_string() } else { gen_sched(r) };
         // every fifth traffic op: the builder of one request is NOT idempotent
         let n = r.range(1, 3);
-        let flaky = if r.chance(1, 5) { format!(" flaky={}", r.below(n)) } else { String::new() };
+        // ... or (every twentieth) idempotent in the payload but not in the reliable flag of its meta-data
+        let flaky = if r.chance(1, 5) {
+            format!(" flaky={}", r.below(n))
+        } else if r.chance(1, 16) {
+            format!(" flakyrel={}", r.below(n))
+        } else {
+            String::new()
+        };
         if r.chance(2, 3) {
             ops.push(format!("rr n={} sched={}{}", n, sched, flaky));
         } else {
